@@ -70,9 +70,12 @@ class ClassInfo:
         self.setters = {}
         self.assigns = {}      # class-level constant name -> ast expr
         self.base_exprs = node.bases
+        self.overloads = {}    # name -> [FuncInfo] for multipledispatch @dispatch(...) overloads
         for st in node.body:
             if isinstance(st, (ast.FunctionDef,)):
                 fi = FuncInfo(st, module, self)
+                if 'dispatch' in fi.decorators:
+                    self.overloads.setdefault(fi.name, []).append(fi)
                 if fi.kind == 'property':
                     self.getters[fi.name] = fi
                 elif fi.kind == 'setter':
